@@ -120,7 +120,15 @@ def plan_facts(frame_q):
     low = o.expr
     parts = dask.get(low.__dask_graph__(), low.__dask_keys__())
     mm = [[int(p.index.min()), int(p.index.max())] if len(p) else [] for p in parts]
-    return {"ok": True, "known": bool(known), "np": int(o.npartitions), "div": [int(d) for d in divs] if known else [], "minmax": mm}
+    fused = []
+    for e in frame_q.optimize(fuse=False).expr.walk():       # before blockwise fusion hides the readers inside Fused groups
+        if type(e).__name__ in ("FusedIO", "FusedParquetIO"):
+            inner = e.operand("_expr")
+            idiv = inner._divisions()
+            iknown = idiv[0] is not None
+            fused.append({"sel": [int(x) for x in inner._partitions], "buckets": [[int(x) for x in b] for b in e._fusion_buckets], "known": bool(iknown),
+                          "inner_div": [int(d) for d in idiv] if iknown else [], "div": [int(d) for d in e._divisions()] if iknown else []})
+    return {"ok": True, "known": bool(known), "np": int(o.npartitions), "div": [int(d) for d in divs] if known else [], "minmax": mm, "fused": fused}
 
 
 def replay(case):
@@ -146,7 +154,7 @@ def replay(case):
         try:
             plan = plan_facts(frame_q)
         except Exception as ex:
-            plan = {"ok": False, "known": False, "np": 0, "div": [], "minmax": [], "err": f"{type(ex).__name__}: {ex}"[:200]}
+            plan = {"ok": False, "known": False, "np": 0, "div": [], "minmax": [], "fused": [], "err": f"{type(ex).__name__}: {ex}"[:200]}
             obs.append({"label": "plan", "res": {"ok": False, "err": type(ex).__name__, "msg": str(ex)[:200]}})
         guard = {"tried": False, "refused": False, "intact": False}
         if case.get("guard"):
@@ -167,7 +175,7 @@ def replay(case):
         per_file = not (case["rd"]["fs"] == "fsspec" and case["rd"]["srg"] == "true" and case["rg"] == 2)       # else a partition is a row group
         must_know = bool(per_file and case["rd"]["calcdiv"] and case["divknown"] and (sorted_by_name or case["rd"]["fs"] == "arrow") and not case["uf"] and case["pred"]["p"] == "none"
                          and not case["parts"] and _strict(case["layout"]))
-        out.update(written=wres["t"], scale=scale, readback=readback, inmem=inmem, obs=obs, plan={k: plan[k] for k in ("ok", "known", "np", "div", "minmax")}, guard={k: guard[k] for k in ("tried", "refused", "intact")},
+        out.update(written=wres["t"], scale=scale, readback=readback, inmem=inmem, obs=obs, plan={k: plan[k] for k in ("ok", "known", "np", "div", "minmax", "fused")}, guard={k: guard[k] for k in ("tried", "refused", "intact")},
                    must_know=must_know)
         out["messages"] = {o["label"]: o["res"].get("msg", "") for o in obs if not o["res"].get("ok")}
         out["plan_err"] = plan.get("err", "")
